@@ -6,6 +6,9 @@ import (
 	"net"
 
 	"github.com/vishvananda/netlink"
+
+	"github.com/AliyunContainerService/terway/plugin/driver/nic"
+	"github.com/AliyunContainerService/terway/plugin/driver/types"
 )
 
 // VerifDstIPRule exposes the classifier key computed by dstIPRule to the verification harness.
@@ -15,4 +18,24 @@ func VerifDstIPRule(index int, ip *net.IPNet, dstIndex int) (off int32, val, mas
 		return 0, 0, 0, err
 	}
 	return r.offset, r.value, r.mask, nil
+}
+
+// Verif* expose the unexported configuration generators to the verification harness.
+func VerifGenerateContCfgForPolicy(cfg *types.SetupConfig, link netlink.Link, mac net.HardwareAddr) *nic.Conf {
+	return generateContCfgForPolicy(cfg, link, mac)
+}
+func VerifGenerateContCfgForIPVlan(cfg *types.SetupConfig, link netlink.Link) *nic.Conf {
+	return generateContCfgForIPVlan(cfg, link)
+}
+func VerifGenerateENICfgForIPVlan(cfg *types.SetupConfig, link netlink.Link) *nic.Conf {
+	return generateENICfgForIPVlan(cfg, link)
+}
+func VerifGenerateSlaveLinkCfgForIPVlan(cfg *types.SetupConfig, link netlink.Link) *nic.Conf {
+	return generateSlaveLinkCfgForIPVlan(cfg, link)
+}
+func VerifGenerateContCfgForExclusiveENI(cfg *types.SetupConfig, link netlink.Link) *nic.Conf {
+	return generateContCfgForExclusiveENI(cfg, link)
+}
+func VerifGenerateContCfgForVlan(cfg *types.SetupConfig, link netlink.Link) *nic.Conf {
+	return generateContCfgForVlan(cfg, link)
 }
